@@ -131,6 +131,23 @@ func runSQLStore(kind string, ops []string) string {
 			out = append(out, r)
 			continue
 		}
+		if strings.HasPrefix(op, "RF.") {
+			// a READ whose query is accepted but whose result set fails at the first row (the connection is lost while the rows are
+			// streamed): the store must answer with an error — not with "not found", not with an empty list
+			e.beginOp(-1)
+			e.mu.Lock()
+			e.rowsBad = true
+			e.mu.Unlock()
+			r := recordStoreOpsCreated(store, []string{strings.TrimPrefix(op, "RF.")}, false)
+			e.mu.Lock()
+			e.rowsBad = false
+			e.mu.Unlock()
+			if i := strings.IndexByte(r, ':'); i >= 0 && r != "err" {
+				r = r[:i] // an answer where an error was due: keep its kind only (rec / ob / list)
+			}
+			out = append(out, r)
+			continue
+		}
 		e.beginOp(-1)
 		e.lastList = ""
 		r := recordStoreOpsCreated(store, []string{op}, false)
@@ -166,6 +183,7 @@ func genSQLStore(p *params, emit func(string, bool)) {
 		emit(fmt.Sprintf("sq S.1.1.1.2.1.4.10.1.0 SF.%d.1.1.1.5.2.6.10.2.0 L.1.0 T.1.1.0 O.1.10 Q.1.0.0.0.-.-.- S.1.1.1.5.2.6.10.2.0 L.1.0 O.1.10", k), true)
 	}
 	emit("sq SB.1.1.1.2.1.4.10.1.0 L.1.0 T.1.1.0 O.1.10 Q.1.0.0.0.-.-.-", true)
+	emit("sq S.1.1.1.2.1.4.10.1.0 RF.L.1.0 RF.T.1.1.0 RF.O.1.10 RF.Q.1.0.0.0.-.-.- L.1.0 T.1.1.0", true)
 	emit("sq S.1.1.1.2.1.4.10.1.0 SB.1.1.1.5.2.6.10.2.0 L.1.0 T.1.1.0 O.1.10 Q.1.0.0.0.-.-.-", true)
 	for i := 0; i < p.pick(400, 6000); i++ {
 		ops := genStoreOps(r, 5+r.Intn(40), false)
@@ -176,6 +194,12 @@ func genSQLStore(p *params, emit func(string, bool)) {
 		}
 		for j := 0; j < 5; j++ {
 			ops = append(ops, genListOp(r))
+		}
+		// reads whose result set breaks while it is streamed
+		for j := range ops {
+			if c := ops[j][0]; (c == 'L' || c == 'T' || c == 'O' || c == 'Q') && ops[j][1] == '.' && r.Intn(8) == 0 {
+				ops[j] = "RF." + ops[j]
+			}
 		}
 		emit("sq "+strings.Join(ops, " "), true)
 	}
